@@ -67,6 +67,55 @@ pub fn check_pair(e: Entry, x: u32, l: &mut Local) -> Check {
     Ok(())
 }
 
+/// ONE comparison (operator `kind` 0..14) of entry and code point against the mathematical definition
+pub fn single_op(kind: u8, e: Entry, x: u32) -> Result<(), (String, String)> {
+    let c = e.mk();
+    let (a, b) = if e.range { (e.a, e.b) } else { (e.a, e.a) };
+    let (less, greater) = (b < x, a > x);
+    let equal = !less && !greater;
+    let want = if less { Ordering::Less } else if greater { Ordering::Greater } else { Ordering::Equal };
+    let (name, got, exp): (&str, String, String) = match kind % 14 {
+        0 => ("entry < cp", (c < x).to_string(), less.to_string()),
+        1 => ("entry > cp", (c > x).to_string(), greater.to_string()),
+        2 => ("entry <= cp", (c <= x).to_string(), (less || equal).to_string()),
+        3 => ("entry >= cp", (c >= x).to_string(), (greater || equal).to_string()),
+        4 => ("entry == cp", (c == x).to_string(), equal.to_string()),
+        5 => ("entry != cp", (c != x).to_string(), (!equal).to_string()),
+        6 => ("cp < entry", (x < c).to_string(), greater.to_string()),
+        7 => ("cp > entry", (x > c).to_string(), less.to_string()),
+        8 => ("cp <= entry", (x <= c).to_string(), (greater || equal).to_string()),
+        9 => ("cp >= entry", (x >= c).to_string(), (less || equal).to_string()),
+        10 => ("cp == entry", (x == c).to_string(), equal.to_string()),
+        11 => ("cp != entry", (x != c).to_string(), (!equal).to_string()),
+        12 => ("entry.partial_cmp(cp)", format!("{:?}", c.partial_cmp(&x)), format!("{:?}", Some(want))),
+        _ => ("cp.partial_cmp(entry)", format!("{:?}", x.partial_cmp(&c)), format!("{:?}", Some(want.reverse()))),
+    };
+    if got != exp {
+        return Err((format!("{name} = {exp}"), format!("{name} = {got}")));
+    }
+    Ok(())
+}
+
+/// a history of single comparisons on one thread: (operator, entry, cp, how many times in a row); every answer is checked
+pub fn check_history(steps: &[(u8, Entry, u32, u16)], l: &mut Local) -> Check {
+    for (i, (kind, e, x, times)) in steps.iter().enumerate() {
+        for t in 0..*times {
+            l.eval();
+            if let Err((exp, obs)) = single_op(*kind, *e, *x) {
+                return Err(Violation::new(
+                    json!({"op": "compare_history", "steps": steps[..=i].iter().map(|(k, e, x, n)| json!([k, e.json(), x, n])).collect::<Vec<_>>(), "failing_step": i, "failing_repeat": t}),
+                    format!("{exp} (whatever was compared before)"),
+                    obs,
+                ));
+            }
+        }
+    }
+    if steps.len() >= 2 {
+        l.nt(hash64(&steps));
+    }
+    Ok(())
+}
+
 /// table = sorted disjoint entries built from (gap, len, as_range) triples; probe code points
 pub fn check_table(spec: &[(u32, u32, bool)], base: u32, l: &mut Local) -> Check {
     let mut entries: Vec<Entry> = Vec::new();
@@ -186,6 +235,97 @@ pub fn run(run: &Run) {
             }
         }
     });
+    // histories: n identical-operator comparisons that involve one range (the code point fixed or sweeping through the range), then every
+    // operator on every (entry, cp) of a family of related ranges (same start / same end / nested / adjacent), each probe after a fresh priming
+    run.par("primed_histories", true, |tid, n, l| {
+        let fams: [[u32; 4]; 3] = [[0x600, 0x605, 0x628, 0x6ff], [0, 0x7f, 0x80, 0x10ffff], [0x10ffff, 0x110000, u32::MAX - 1, u32::MAX]];
+        let mut idx = 0usize;
+        for fam in fams {
+            let mut entries: Vec<Entry> = Vec::new();
+            for i in 0..4 {
+                entries.push(Entry { range: false, a: fam[i], b: fam[i] });
+                for j in i..4 {
+                    entries.push(Entry { range: true, a: fam[i], b: fam[j] });
+                }
+            }
+            let mut cps: Vec<u32> = Vec::new();
+            for b in fam {
+                cps.extend([b.wrapping_sub(1), b, b.wrapping_add(1)]);
+            }
+            cps.push(fam[1] / 2 + fam[2] / 2);
+            cps.sort();
+            cps.dedup();
+            for prime_kind in 0..14u8 {
+                for count in [1u16, 2, 7, 8, 9, 15, 16, 17, 31, 32, 33, 43, 63, 64, 65, 100, 127, 128, 129, 255, 256, 257] {
+                    for sweep in [false, true] {
+                        idx += 1;
+                        if idx % n != tid {
+                            continue;
+                        }
+                        if run.stopped() {
+                            return;
+                        }
+                        // the priming range: the widest one of the family; its code points: the middle, or a sweep inside it
+                        let e1 = Entry { range: true, a: fam[0], b: fam[3] };
+                        let span = (fam[3] - fam[0]).max(1);
+                        let prime = |l: &mut Local| -> Check {
+                            for t in 0..count as u32 {
+                                let c1 = if sweep { fam[0] + (span / 3).saturating_add(t) % span } else { fam[2] };
+                                l.eval();
+                                if let Err((exp, obs)) = single_op(prime_kind, e1, c1) {
+                                    return Err(Violation::new(json!({"op": "compare_history", "steps": [[prime_kind, e1.json(), c1, t + 1]], "failing_step": 0, "failing_repeat": t}), exp, obs));
+                                }
+                            }
+                            Ok(())
+                        };
+                        for e2 in &entries {
+                            for c2 in &cps {
+                                for k2 in 0..14u8 {
+                                    l.cases += 1;
+                                    if let Err(v) = prime(l) {
+                                        run.violate(v);
+                                        return;
+                                    }
+                                    l.eval();
+                                    if let Err((exp, obs)) = single_op(k2, *e2, *c2) {
+                                        let c1 = if sweep { fam[0] + span / 3 } else { fam[2] };
+                                        run.violate(Violation::new(
+                                            json!({"op": "compare_history", "steps": [[prime_kind, e1.json(), c1, count], [k2, e2.json(), c2, 1]], "sweeping_cp": sweep, "failing_step": 1, "failing_repeat": 0,
+                                                   "note": "step 0 with sweeping_cp=true uses cp, cp+1, ... (wrapping inside the range) instead of one fixed cp"}),
+                                            format!("{exp} (whatever was compared before)"),
+                                            obs,
+                                        ));
+                                        return;
+                                    }
+                                }
+                            }
+                        }
+                    }
+                }
+            }
+        }
+    });
+    // proptest histories over a family of ranges built from 4 generated boundaries
+    let mk_hist = || {
+        let bound = prop_oneof![3 => 0u32..0x3000, 2 => any::<u32>(), 1 => 0x10fff0u32..0x110010, 1 => (u32::MAX - 8)..=u32::MAX];
+        (vec(bound, 4), vec((0u8..14, 0usize..14, 0usize..13, prop_oneof![6 => Just(1u16), 2 => 2u16..6, 2 => 30u16..36, 1 => 60u16..70, 1 => 120u16..260]), 2..14)).prop_map(|(mut b, steps)| {
+            b.sort();
+            let mut entries: Vec<Entry> = Vec::new();
+            for i in 0..4 {
+                entries.push(Entry { range: false, a: b[i], b: b[i] });
+                for j in i..4 {
+                    entries.push(Entry { range: true, a: b[i], b: b[j] });
+                }
+            }
+            let mut cps: Vec<u32> = Vec::new();
+            for x in &b {
+                cps.extend([x.wrapping_sub(1), *x, x.wrapping_add(1)]);
+            }
+            cps.push(b[1] / 2 + b[2] / 2);
+            steps.into_iter().map(|(k, ei, ci, n)| (k, entries[ei % entries.len()], cps[ci % cps.len()], n)).collect::<Vec<_>>()
+        })
+    };
+    run.prop("random_histories", run.pick(300_000, 10_000_000), mk_hist, |steps, l| check_history(steps, l));
     let mk_pairs = || {
         let special = prop_oneof![4 => any::<u32>(), 1 => 0xd7f0u32..0xe010, 1 => 0xfff0u32..0x10010, 1 => 0x10fff0u32..0x110010, 1 => 0u32..0x3000, 1 => (u32::MAX - 64)..=u32::MAX];
         (any::<bool>(), special.clone(), special, 0u8..8, -2i64..=2).prop_map(|(range, p, q, mode, delta)| {
@@ -217,6 +357,24 @@ pub fn replay(_run: &Run, case: &Value) -> Check {
             let e = &case["entry"];
             let en = Entry { range: e["range"].as_bool().unwrap(), a: e["start"].as_u64().unwrap() as u32, b: e["end"].as_u64().unwrap() as u32 };
             check_pair(en, case["cp"].as_u64().unwrap() as u32, &mut l)
+        }
+        Some("compare_history") => {
+            let sweep = case.get("sweeping_cp").and_then(|b| b.as_bool()).unwrap_or(false);
+            let mut steps: Vec<(u8, Entry, u32, u16)> = Vec::new();
+            for (i, s) in case["steps"].as_array().unwrap().iter().enumerate() {
+                let e = &s[1];
+                let en = Entry { range: e["range"].as_bool().unwrap(), a: e["start"].as_u64().unwrap() as u32, b: e["end"].as_u64().unwrap() as u32 };
+                let (k, x, n) = (s[0].as_u64().unwrap() as u8, s[2].as_u64().unwrap() as u32, s[3].as_u64().unwrap() as u16);
+                if sweep && i == 0 {
+                    let span = (en.b - en.a).max(1);
+                    for t in 0..n as u32 {
+                        steps.push((k, en, en.a + (x - en.a).saturating_add(t) % span, 1));
+                    }
+                } else {
+                    steps.push((k, en, x, n));
+                }
+            }
+            check_history(&steps, &mut l)
         }
         Some("table_search") => {
             let spec: Vec<(u32, u32, bool)> = case["spec"]
